@@ -119,7 +119,6 @@ impl<'a> Vm<'a> {
         }
     }
 
-    #[cfg(any(feature = "std", feature = "stdlite"))]
     pub fn jit_compile(&mut self) -> Result<(), String> {
         all!(self, v => v.jit_compile().map_err(es))
     }
@@ -154,10 +153,6 @@ impl<'a> Vm<'a> {
     #[cfg(not(any(feature = "std", feature = "stdlite")))]
     pub fn set_jit_exec_memory(&mut self, m: &'a mut [u8]) -> Result<(), String> {
         all!(self, v => v.set_jit_exec_memory(m).map_err(es))
-    }
-    #[cfg(not(any(feature = "std", feature = "stdlite")))]
-    pub fn jit_compile(&mut self) -> Result<(), String> {
-        all!(self, v => v.jit_compile().map_err(es))
     }
 }
 
